@@ -299,7 +299,11 @@ func runC13(rc *RunCtx) {
 			govDone = true
 			// one governance change that keeps the ratio sum <= 100
 			var err error
-			switch rc.Intn(4) {
+			switch rc.Intn(5) {
+			case 4:
+				na := c.Accs[rc.Intn(len(c.Accs))].Bech
+				rc.Logf("gov: StorageStipend -> %s at h=%d", na, c.Height)
+				err = c.ParamChange("jklmint", "StorageStipend", fmt.Sprintf(`"%s"`, na))
 			case 0:
 				nd := rc.Pick(decr)
 				rc.Logf("gov: MintDecrease -> %d at h=%d", nd, c.Height)
